@@ -27,13 +27,21 @@ def fcPure : List Nat → List Nat
   | [] => []
   | cp :: rest => fcCell cp (rest.headD 0) ++ fcPure rest
 
-/-- the cells for which the loop insists on 5 free cells (`goto too_small` otherwise) -/
-def needs5 (cp : Nat) : Bool := !decide (iswfc cp > 1) && !fcSpecial cp && cp != 0x3a3
+/-- the cells for which the loop insists on 5 free cells (`goto too_small` otherwise): the single-character branch, and — with the
+room check of `fixes/wcsfc-multichar-room-check.diff` (`fx.foldRoom`) — the multi-character branch as well -/
+def needs5 (fx : Fixes) (cp : Nat) : Bool :=
+  (decide (iswfc cp > 1) && fx.foldRoom) || (!decide (iswfc cp > 1) && !fcSpecial cp && cp != 0x3a3)
 
 /-! ## table facts (kernel-checked) -/
 
 theorem tbl_cells16 :
     (tbl2L.all fun e => e.2.all fun x => decide (x < 65536)) = true ∧ (tbl3L.all fun e => e.2.all fun x => decide (x < 65536)) = true := by
+  decide +kernel
+
+/-- every entry of `tbl2` / `tbl3`: at most 4 cells, and at most 4 after each cell has been canonically decomposed (the bound is
+attained: U+1F82 ⇒ 3B1 313 300 3B9) -/
+theorem tbl_room4 :
+    ((tbl2L ++ tbl3L).all fun e => decide (e.2.length ≤ 4) && decide ((e.2.flatMap decompose1).length ≤ 4)) = true := by
   decide +kernel
 
 theorem special_iswfc : ([0x1cbb, 0x1cbc, 0x1057B, 0x1058B, 0x10593].all fun c => iswfc c == 0) = true := by decide +kernel
@@ -131,36 +139,88 @@ theorem current_rangeChk : current.rangeChk = true := rfl
 local macro "fin_step" : tactic =>
   `(tactic| (split <;> first | rfl | (split <;> simp_all [contOk])))
 
-/-- one iteration of the loop of `_wcsfc_s_chk`, in terms of `fcCell` -/
-theorem fcLoop_cons (cp : Nat) (rest : List Nat) (dmax : Nat) (h0 : cp ≠ 0) (hd : dmax ≠ 0) (hm : cp ≤ 0x10FFFF) :
-    fcLoop current (cp :: rest) dmax =
-      if needs5 cp = true ∧ dmax < 5 then .fail ESNOSPC 2
+/-- a multi-cell folding stores between 1 and 4 cells, decomposed (U+1F80..U+1FF4) or not -/
+theorem fcCell_multi_len {cp : Nat} (h : 1 < iswfc cp) (nx : Nat) : 0 < (fcCell cp nx).length ∧ (fcCell cp nx).length ≤ 4 := by
+  have hl : (towfcCore cp).2.length = iswfc cp := by rw [fold_cells]; omega
+  have hall := List.all_eq_true.mp tbl_room4
+  have h128 : ¬ cp < 128 := by
+    intro h128
+    simp only [towfcCore, h128, if_true, List.length_singleton] at hl
+    omega
+  have key : ∀ l, (cp, l) ∈ tbl2L ++ tbl3L → l.length ≤ 4 ∧ (l.flatMap decompose1).length ≤ 4 := by
+    intro l hmem
+    have := hall _ hmem
+    simpa using this
+  have hlen : ∀ l : List Nat, l.length ≤ (l.flatMap decompose1).length := by
+    intro l
+    induction l with
+    | nil => simp
+    | cons a l ih =>
+      have := List.length_pos_iff.mpr (decompose1_ne_nil a)
+      simp only [List.flatMap_cons, List.length_append, List.length_cons]
+      omega
+  have hb : (towfcCore cp).2.length ≤ 4 ∧ ((towfcCore cp).2.flatMap decompose1).length ≤ 4 := by
+    cases h2 : scanTbl cp tbl2L with
+    | some l =>
+      have e : towfcCore cp = (2, l) := by simp only [towfcCore, h128, if_false, h2]
+      rw [e]
+      exact key l (List.mem_append_left _ (scanTbl_mem _ _ _ h2))
+    | none =>
+      cases h3 : scanTbl cp tbl3L with
+      | some l =>
+        have e : towfcCore cp = (3, l) := by simp only [towfcCore, h128, if_false, h2, h3]
+        rw [e]
+        exact key l (List.mem_append_right _ (scanTbl_mem _ _ _ h3))
+      | none =>
+        simp only [towfcCore, h128, if_false, h2, h3, List.length_singleton] at hl
+        omega
+  have := hlen (towfcCore cp).2
+  simp only [fcCell, h, gt_iff_lt, if_true]
+  split <;> omega
+
+/-- one iteration of the loop of `_wcsfc_s_chk`, in terms of `fcCell` — as is (`fx.foldRoom = false`) and with the room check -/
+theorem fcLoop_cons (fx : Fixes) (hfx : fx.rangeChk = true) (cp : Nat) (rest : List Nat) (dmax : Nat) (h0 : cp ≠ 0) (hd : dmax ≠ 0)
+    (hm : cp ≤ 0x10FFFF) :
+    fcLoop fx (cp :: rest) dmax =
+      if needs5 fx cp = true ∧ dmax < 5 then .fail ESNOSPC 2
       else if dmax < (fcCell cp (rest.headD 0)).length then .overrun
-      else contOk (fcCell cp (rest.headD 0)) (fcLoop current rest (dmax - (fcCell cp (rest.headD 0)).length)) := by
+      else contOk (fcCell cp (rest.headD 0)) (fcLoop fx rest (dmax - (fcCell cp (rest.headD 0)).length)) := by
   have hmax : ¬ UniCompos.unicodeMax < cp := by rw [unicodeMax_eq]; omega
   rw [fcLoop]
-  simp only [h0, hd, if_false, current_rangeChk, hmax, decide_false, Bool.and_false, Bool.false_eq_true]
+  simp only [h0, hd, if_false, hfx, hmax, decide_false, Bool.and_false, Bool.false_eq_true]
   by_cases hc : iswfc cp > 1
   · obtain ⟨m1, m2, m3⟩ := towfcCore_multi hc
-    have hn : needs5 cp = false := by simp [needs5, hc]
-    simp only [hc, if_true, m1, if_false, m2, hn, Bool.false_eq_true, false_and]
-    by_cases hr : 0x1f80 ≤ cp ∧ cp ≤ 0x1ff4
-    · simp only [hr, and_self, if_true, fcCell, hc]
-      rw [List.map_congr_left (g := fun x => some (decompose1 x)), parts_none, parts_flatten]
-      · fin_step
-      · intro x hx
-        have hx16 := m3 x hx
-        obtain ⟨l, hl, hw, _⟩ := decompS_eq (dmax := 8) (cp := x) (by rw [unicodeMax_eq]; omega) (decompS_ne_err (by omega))
-        rw [hl]
-        cases l with
-        | nil => simpa using hw
-        | cons a b => simpa using hw
-    · simp only [hr, if_false, fcCell, hc, if_true]
-      fin_step
+    by_cases hroom : fx.foldRoom = true ∧ dmax < 5
+    · have hn : needs5 fx cp = true := by simp [needs5, hc, hroom.1]
+      simp only [hc, if_true, hroom.1, hroom.2, decide_true, Bool.and_self, hn, and_self]
+    · have hg : (fx.foldRoom && decide (dmax < 5)) = false := by
+        cases hf : fx.foldRoom
+        · rfl
+        · simp only [Bool.true_and, decide_eq_false_iff_not]; exact fun h5 => hroom ⟨hf, h5⟩
+      have hn : ¬ (needs5 fx cp = true ∧ dmax < 5) := by
+        intro hh
+        apply hroom
+        refine ⟨?_, hh.2⟩
+        have := hh.1
+        simpa [needs5, hc] using this
+      simp only [hc, if_true, hg, Bool.false_eq_true, if_false, m1, m2, hn]
+      by_cases hr : 0x1f80 ≤ cp ∧ cp ≤ 0x1ff4
+      · simp only [hr, and_self, if_true, fcCell, hc]
+        rw [List.map_congr_left (g := fun x => some (decompose1 x)), parts_none, parts_flatten]
+        · fin_step
+        · intro x hx
+          have hx16 := m3 x hx
+          obtain ⟨l, hl, hw, _⟩ := decompS_eq (dmax := 8) (cp := x) (by rw [unicodeMax_eq]; omega) (decompS_ne_err (by omega))
+          rw [hl]
+          cases l with
+          | nil => simpa using hw
+          | cons a b => simpa using hw
+      · simp only [hr, if_false, fcCell, hc, if_true]
+        fin_step
   · simp only [hc, if_false]
     by_cases hs : fcSpecial cp = true
     · have hz := fcSpecial_iswfc hs
-      have hn : needs5 cp = false := by simp [needs5, hs]
+      have hn : needs5 fx cp = false := by simp [needs5, hs, hc]
       have hdis : cp = 0x1cbb ∨ cp = 0x1cbc ∨ cp = 0x1057B ∨ cp = 0x1058B ∨ cp = 0x10593 := by
         simpa [fcSpecial, or_assoc] using hs
       simp only [hz, hdis, and_self, if_true, hn, Bool.false_eq_true, false_and, if_false, fcCell, hc, hs]
@@ -170,10 +230,10 @@ theorem fcLoop_cons (cp : Nat) (rest : List Nat) (dmax : Nat) (h0 : cp ≠ 0) (h
       simp only [hdis, and_false, if_false]
       by_cases h3 : cp = 0x3a3
       · subst h3
-        have hn : needs5 0x3a3 = false := by simp [needs5]
+        have hn : needs5 fx 0x3a3 = false := by simp [needs5, hc]
         simp only [if_true, hn, Bool.false_eq_true, false_and, if_false, fcCell, hc, hs]
         fin_step
-      · have hn : needs5 cp = true := by simp [needs5, hc, hs, h3]
+      · have hn : needs5 fx cp = true := by simp [needs5, hc, hs, h3]
         simp only [h3, hn, true_and, if_false, fcCell, hc, hs, Bool.false_eq_true]
         have ht := towfcSingle_le cp hm
         have hmod : (towfcSingle cp).2 % 2 ^ 32 = (towfcSingle cp).2 := Nat.mod_eq_of_lt (by omega)
@@ -193,36 +253,59 @@ theorem fcLoop_cons (cp : Nat) (rest : List Nat) (dmax : Nat) (h0 : cp ≠ 0) (h
             | cons a b => simp only [List.isEmpty_cons, Bool.false_eq_true, if_false]; fin_step
           · simp only [hge, false_and, if_false]; fin_step
 
-theorem fcLoop_big (cp : Nat) (rest : List Nat) (dmax : Nat) (h0 : cp ≠ 0) (hd : dmax ≠ 0) (hm : 0x10FFFF < cp) :
-    fcLoop current (cp :: rest) dmax = .fail ESLEMAX 0 := by
+theorem fcLoop_big (fx : Fixes) (hfx : fx.rangeChk = true) (cp : Nat) (rest : List Nat) (dmax : Nat) (h0 : cp ≠ 0) (hd : dmax ≠ 0)
+    (hm : 0x10FFFF < cp) : fcLoop fx (cp :: rest) dmax = .fail ESLEMAX 0 := by
   have hmax : UniCompos.unicodeMax < cp := by rw [unicodeMax_eq]; omega
   rw [fcLoop]
-  simp [h0, hd, current_rangeChk, hmax]
+  simp [h0, hd, hfx, hmax]
 
-theorem fcLoop_zero (cp : Nat) (rest : List Nat) (h0 : cp ≠ 0) : fcLoop current (cp :: rest) 0 = .ok [] 0 := by
+theorem fcLoop_zero (fx : Fixes) (cp : Nat) (rest : List Nat) (h0 : cp ≠ 0) : fcLoop fx (cp :: rest) 0 = .ok [] 0 := by
   rw [fcLoop]
   simp [h0]
 
-/-- a cell of the single-character branch emits at least one cell -/
-theorem fcCell_pos {cp : Nat} (nx : Nat) (h : needs5 cp = true) : 0 < (fcCell cp nx).length := by
-  simp only [needs5, Bool.and_eq_true, Bool.not_eq_eq_eq_not, Bool.not_true, decide_eq_false_iff_not, bne_iff_ne, ne_eq] at h
-  obtain ⟨⟨h1, h2⟩, h3⟩ := h
-  simp only [fcCell, h1, h2, h3, if_false, Bool.false_eq_true]
-  split
-  · exact List.length_pos_iff.mpr (decompose1_ne_nil _)
-  · simp
+/-- every cell emits at least one cell and, being a code point, at most 4 — whichever branch takes it -/
+theorem fcCell_len {cp : Nat} (nx : Nat) (hm : cp ≤ 0x10FFFF) : 0 < (fcCell cp nx).length ∧ (fcCell cp nx).length ≤ 4 := by
+  by_cases hc : iswfc cp > 1
+  · exact fcCell_multi_len hc nx
+  · simp only [fcCell, hc, if_false]
+    split
+    · simp
+    · split
+      · simp
+      · split
+        · refine ⟨List.length_pos_iff.mpr (decompose1_ne_nil _), ?_⟩
+          have ht := towfcSingle_le cp hm
+          obtain ⟨l, _, _, hlt⟩ := decompS_eq (dmax := 5) (cp := (towfcSingle cp).2) (by rw [unicodeMax_eq]; exact ht)
+            (decompS_ne_err (by omega))
+          omega
+        · simp
 
-/-- the loop of `_wcsfc_s_chk` with the range check, any string without an embedded terminator, any `dmax`:
-no table index out of bounds; the two ways it fails; success with room left means `fcPure`; no write behind `dest + dmax`
-when the result fits at all; success when 4 more cells than the result are available -/
-theorem fcLoop_spec : ∀ (src : List Nat) (dmax : Nat), (∀ c ∈ src, c ≠ 0) →
-    fcLoop current src dmax ≠ .oob ∧
-    (∀ r l, fcLoop current src dmax = .fail r l → (r = ESLEMAX ∧ l = 0) ∨ (r = ESNOSPC ∧ l = 2)) ∧
-    (∀ out d, fcLoop current src dmax = .ok out d → 0 < d →
+/-- a cell for which the loop does not ask for 5 free cells although the room check is in: one of the five, or the sigma — one cell -/
+theorem fcCell_len_one {fx : Fixes} {cp : Nat} (nx : Nat) (hf : fx.foldRoom = true) (h : needs5 fx cp = false) :
+    (fcCell cp nx).length = 1 := by
+  simp only [needs5, hf, Bool.and_true, Bool.or_eq_false_iff, decide_eq_false_iff_not, Bool.and_eq_false_iff,
+    Bool.not_eq_eq_eq_not, Bool.not_false, decide_eq_true_eq, Bool.not_true, bne_eq_false_iff_eq] at h
+  obtain ⟨h1, h2⟩ := h
+  simp only [fcCell, h1, if_false]
+  rcases h2 with (h2 | h2) | h2
+  · exact absurd h2 h1
+  · simp [h2]
+  · split
+    · simp
+    · simp [h2]
+
+/-- the loop of `_wcsfc_s_chk` with the range check, as is and with the room check, any string without an embedded terminator, any
+`dmax`: no table index out of bounds; the two ways it fails; success with room left means `fcPure`; no write behind `dest + dmax`
+when the result fits at all — and with the room check NEVER; success when 4 more cells than the result are available -/
+theorem fcLoop_spec (fx : Fixes) (hfx : fx.rangeChk = true) : ∀ (src : List Nat) (dmax : Nat), (∀ c ∈ src, c ≠ 0) →
+    fcLoop fx src dmax ≠ .oob ∧
+    (∀ r l, fcLoop fx src dmax = .fail r l → (r = ESLEMAX ∧ l = 0) ∨ (r = ESNOSPC ∧ l = 2)) ∧
+    (∀ out d, fcLoop fx src dmax = .ok out d → 0 < d →
         out = fcPure src ∧ d + out.length = dmax ∧ ∀ c ∈ src, c ≤ 0x10FFFF) ∧
-    ((fcPure src).length ≤ dmax → fcLoop current src dmax ≠ .overrun) ∧
+    ((fcPure src).length ≤ dmax → fcLoop fx src dmax ≠ .overrun) ∧
     ((∀ c ∈ src, c ≤ 0x10FFFF) → (fcPure src).length + 4 ≤ dmax →
-        fcLoop current src dmax = .ok (fcPure src) (dmax - (fcPure src).length)) := by
+        fcLoop fx src dmax = .ok (fcPure src) (dmax - (fcPure src).length)) ∧
+    (fx.foldRoom = true → fcLoop fx src dmax ≠ .overrun) := by
   intro src
   induction src with
   | nil =>
@@ -234,39 +317,47 @@ theorem fcLoop_spec : ∀ (src : List Nat) (dmax : Nat), (∀ c ∈ src, c ≠ 0
     have hrest : ∀ c ∈ rest, c ≠ 0 := fun c hc => h0 c (by simp [hc])
     by_cases hd : dmax = 0
     · subst hd
-      rw [fcLoop_zero cp rest hcp0]
+      rw [fcLoop_zero fx cp rest hcp0]
       simp [fcPure]
     · by_cases hm : 0x10FFFF < cp
-      · rw [fcLoop_big cp rest dmax hcp0 hd hm]
-        simp only [ne_eq, reduceCtorEq, not_false_eq_true, Step.fail.injEq, imp_false, true_and, false_imp_iff, implies_true]
+      · rw [fcLoop_big fx hfx cp rest dmax hcp0 hd hm]
+        simp only [ne_eq, reduceCtorEq, not_false_eq_true, Step.fail.injEq, imp_false, true_and, false_imp_iff, implies_true,
+          and_true]
         refine ⟨?_, ?_⟩
         · intro r l hr; left; exact ⟨hr.1.symm, hr.2.symm⟩
         · intro hall; have := hall cp (by simp); omega
       · have hle : cp ≤ 0x10FFFF := by omega
-        rw [fcLoop_cons cp rest dmax hcp0 hd hle]
-        have hpos := fcCell_pos (cp := cp) (rest.headD 0)
+        rw [fcLoop_cons fx hfx cp rest dmax hcp0 hd hle]
+        have hlen := fcCell_len (cp := cp) (rest.headD 0) hle
+        have hone := fcCell_len_one (fx := fx) (cp := cp) (rest.headD 0)
         have hpure : fcPure (cp :: rest) = fcCell cp (rest.headD 0) ++ fcPure rest := rfl
         rw [hpure]
-        generalize fcCell cp (rest.headD 0) = w at hpos ⊢
-        obtain ⟨i1, i2, i3, i4, i5⟩ := ih (dmax - w.length) hrest
+        generalize fcCell cp (rest.headD 0) = w at hlen hone ⊢
+        obtain ⟨i1, i2, i3, i4, i5, i6⟩ := ih (dmax - w.length) hrest
         simp only [List.length_append]
-        by_cases h5 : needs5 cp = true ∧ dmax < 5
+        by_cases h5 : needs5 fx cp = true ∧ dmax < 5
         · simp only [h5, and_self, if_true]
-          have := hpos h5.1
-          refine ⟨by simp, ?_, by simp, by simp, ?_⟩
+          refine ⟨by simp, ?_, by simp, by simp, ?_, by simp⟩
           · intro r l hr; right; simp only [Step.fail.injEq] at hr; exact ⟨hr.1.symm, hr.2.symm⟩
-          · intro _ hlen; omega
+          · intro _ hlen'; omega
         · simp only [h5, if_false]
           by_cases hov : dmax < w.length
           · simp only [hov, if_true]
-            refine ⟨by simp, by simp, by simp, ?_, ?_⟩
-            · intro hlen; omega
-            · intro _ hlen; omega
+            refine ⟨by simp, by simp, by simp, ?_, ?_, ?_⟩
+            · intro hlen'; omega
+            · intro _ hlen'; omega
+            · -- with the room check this case does not exist
+              intro hf
+              exfalso
+              cases hn : needs5 fx cp with
+              | false => have := hone hf hn; omega
+              | true => have : ¬ dmax < 5 := fun h => h5 ⟨hn, h⟩
+                        omega
           · simp only [hov, if_false]
-            cases hr : fcLoop current rest (dmax - w.length) with
+            cases hr : fcLoop fx rest (dmax - w.length) with
             | ok out d =>
               simp only [contOk]
-              refine ⟨by simp, by simp, ?_, by simp, ?_⟩
+              refine ⟨by simp, by simp, ?_, by simp, ?_, by simp⟩
               · intro out' d' hok hd'
                 simp only [Step.ok.injEq] at hok
                 obtain ⟨rfl, rfl⟩ := hok
@@ -278,7 +369,7 @@ theorem fcLoop_spec : ∀ (src : List Nat) (dmax : Nat), (∀ c ∈ src, c ≠ 0
                   rcases hc with rfl | hc
                   · exact hle
                   · exact e3 c hc
-              · intro hall hlen
+              · intro hall hlen'
                 have := i5 (fun c hc => hall c (by simp [hc])) (by omega)
                 rw [hr] at this
                 simp only [Step.ok.injEq] at this
@@ -287,48 +378,50 @@ theorem fcLoop_spec : ∀ (src : List Nat) (dmax : Nat), (∀ c ∈ src, c ≠ 0
                 omega
             | fail a b =>
               simp only [contOk]
-              refine ⟨by simp, ?_, by simp, by simp, ?_⟩
+              refine ⟨by simp, ?_, by simp, by simp, ?_, by simp⟩
               · intro r l hrl
                 simp only [Step.fail.injEq] at hrl
                 obtain ⟨rfl, rfl⟩ := hrl
                 exact i2 a b hr
-              · intro hall hlen
+              · intro hall hlen'
                 have := i5 (fun c hc => hall c (by simp [hc])) (by omega)
                 rw [hr] at this
                 cases this
             | oob => exact absurd hr i1
             | overrun =>
               simp only [contOk]
-              refine ⟨by simp, by simp, by simp, ?_, ?_⟩
-              · intro hlen; exact absurd hr (i4 (by omega))
-              · intro hall hlen
+              refine ⟨by simp, by simp, by simp, ?_, ?_, ?_⟩
+              · intro hlen'; exact absurd hr (i4 (by omega))
+              · intro hall hlen'
                 have := i5 (fun c hc => hall c (by simp [hc])) (by omega)
                 rw [hr] at this
                 cases this
+              · intro hf; exact absurd hr (i6 hf)
 
 /-! ## `wcsfc_s` itself -/
 
-/-- every input (no embedded terminator), every `dmax` -/
-theorem wcsfcS_model (dmax : Nat) (src : List Nat) (h0 : ∀ c ∈ src, c ≠ 0) :
-    (wcsfcS current dmax src).oob = false ∧
-    ((wcsfcS current dmax src).ret = 0 → (wcsfcS current dmax src).overrun = false →
-      (wcsfcS current dmax src).out = fcPure src ∧ (wcsfcS current dmax src).len = (fcPure src).length ∧
+/-- every input (no embedded terminator), every `dmax`; any model with the range check, as is or with the room check -/
+theorem wcsfcS_model (fx : Fixes) (hfx : fx.rangeChk = true) (dmax : Nat) (src : List Nat) (h0 : ∀ c ∈ src, c ≠ 0) :
+    (wcsfcS fx dmax src).oob = false ∧
+    ((wcsfcS fx dmax src).ret = 0 → (wcsfcS fx dmax src).overrun = false →
+      (wcsfcS fx dmax src).out = fcPure src ∧ (wcsfcS fx dmax src).len = (fcPure src).length ∧
       (fcPure src).length < dmax ∧ dmax ≤ RSIZE_MAX_WSTR ∧ ∀ c ∈ src, c ≤ 0x10FFFF) ∧
-    ((fcPure src).length ≤ dmax → (wcsfcS current dmax src).overrun = false) := by
-  obtain ⟨i1, i2, i3, i4, _⟩ := fcLoop_spec src dmax h0
+    ((fcPure src).length ≤ dmax → (wcsfcS fx dmax src).overrun = false) ∧
+    (fx.foldRoom = true → (wcsfcS fx dmax src).overrun = false) := by
+  obtain ⟨i1, i2, i3, i4, _, i6⟩ := fcLoop_spec fx hfx src dmax h0
   unfold wcsfcS
   by_cases hd : dmax = 0
   · simp [hd, ESZEROL]
   · by_cases hmax : dmax > RSIZE_MAX_WSTR
     · simp [hd, hmax, ESLEMAX]
     · simp only [hd, if_false, hmax]
-      cases hr : fcLoop current src dmax with
+      cases hr : fcLoop fx src dmax with
       | ok out d =>
         cases d with
         | zero => simp [ESNOSPC]
         | succ d =>
           obtain ⟨e1, e2, e3⟩ := i3 out (d + 1) hr (by omega)
-          refine ⟨rfl, ?_, fun _ => rfl⟩
+          refine ⟨rfl, ?_, fun _ => rfl, fun _ => rfl⟩
           intro _ _
           subst e1
           exact ⟨rfl, by simp only []; omega, by omega, by omega, e3⟩
@@ -337,42 +430,46 @@ theorem wcsfcS_model (dmax : Nat) (src : List Nat) (h0 : ∀ c ∈ src, c ≠ 0)
           rcases i2 r l hr with ⟨h, _⟩ | ⟨h, _⟩ <;> rw [h] <;> decide
         have hr1 : ((r : Nat) : Int) ≠ 0 := by exact_mod_cast hr0
         have hr2 : -((r : Nat) : Int) ≠ 0 := by omega
-        refine ⟨?_, ?_, ?_⟩
+        refine ⟨?_, ?_, ?_, ?_⟩
         · split <;> first | rfl | simp_all
         · intro h
           split at h <;> simp_all
         · intro _
           split <;> first | rfl | simp_all
+        · intro _
+          split <;> first | rfl | simp_all
       | oob => exact absurd hr i1
       | overrun =>
-        refine ⟨rfl, ?_, ?_⟩
+        refine ⟨rfl, ?_, ?_, ?_⟩
         · intro _ h; exact absurd h (by simp)
         · intro hlen; exact absurd hr (i4 hlen)
+        · intro hf; exact absurd hr (i6 hf)
 
 /-- the return values: never the negative code of `towfc_s` the documentation mentions (ESNOTFND "when iswfc() and towfc_s() are
 mismatched": they are not, `towfcCore_multi`) -/
-theorem wcsfcS_ret (dmax : Nat) (src : List Nat) (h0 : ∀ c ∈ src, c ≠ 0) :
-    (wcsfcS current dmax src).ret = 0 ∨ (wcsfcS current dmax src).ret = ESZEROL ∨ (wcsfcS current dmax src).ret = ESLEMAX ∨
-    (wcsfcS current dmax src).ret = ESNOSPC := by
-  obtain ⟨_, i2, _, _, _⟩ := fcLoop_spec src dmax h0
+theorem wcsfcS_ret (fx : Fixes) (hfx : fx.rangeChk = true) (dmax : Nat) (src : List Nat) (h0 : ∀ c ∈ src, c ≠ 0) :
+    (wcsfcS fx dmax src).ret = 0 ∨ (wcsfcS fx dmax src).ret = ESZEROL ∨ (wcsfcS fx dmax src).ret = ESLEMAX ∨
+    (wcsfcS fx dmax src).ret = ESNOSPC := by
+  obtain ⟨_, i2, _, _, _, _⟩ := fcLoop_spec fx hfx src dmax h0
   unfold wcsfcS
   by_cases hd : dmax = 0
   · simp [hd]
   · by_cases hmax : dmax > RSIZE_MAX_WSTR
     · simp [hd, hmax]
     · simp only [hd, if_false, hmax]
-      cases hr : fcLoop current src dmax with
+      cases hr : fcLoop fx src dmax with
       | ok out d => cases d <;> simp
       | fail r l =>
         rcases i2 r l hr with ⟨h1, h2⟩ | ⟨h1, h2⟩ <;> subst h1 <;> subst h2 <;> simp
       | oob => simp
       | overrun => simp
 
-/-- four cells more than the result: `wcsfc_s` succeeds (sharp: `wcsfc_exact_fit_witness`) -/
-theorem wcsfcS_succeeds (dmax : Nat) (src : List Nat) (hs : ∀ c ∈ src, c ≠ 0 ∧ c ≤ 0x10FFFF) (hmax : dmax ≤ RSIZE_MAX_WSTR)
+/-- four cells more than the result: `wcsfc_s` succeeds (sharp: `wcsfc_exact_fit_witness`), as is and with the room check -/
+theorem wcsfcS_succeeds (fx : Fixes) (hfx : fx.rangeChk = true) (dmax : Nat) (src : List Nat)
+    (hs : ∀ c ∈ src, c ≠ 0 ∧ c ≤ 0x10FFFF) (hmax : dmax ≤ RSIZE_MAX_WSTR)
     (hroom : (fcPure src).length + 4 ≤ dmax) :
-    wcsfcS current dmax src = ⟨0, (fcPure src).length, fcPure src, false, false⟩ := by
-  obtain ⟨_, _, _, _, i5⟩ := fcLoop_spec src dmax (fun c hc => (hs c hc).1)
+    wcsfcS fx dmax src = ⟨0, (fcPure src).length, fcPure src, false, false⟩ := by
+  obtain ⟨_, _, _, _, i5, _⟩ := fcLoop_spec fx hfx src dmax (fun c hc => (hs c hc).1)
   have h := i5 (fun c hc => (hs c hc).2) hroom
   obtain ⟨k, hk⟩ : ∃ k, dmax - (fcPure src).length = k + 1 := ⟨dmax - (fcPure src).length - 1, by omega⟩
   unfold wcsfcS
